@@ -304,6 +304,12 @@ T = [
     ("c14_terminal_hook_passed_prints_failure", "C14/R9", "src/writer/basic.rs",
      "            Scenario::Hook(_, Hook::Passed) => {\n                self.indent = self.indent.saturating_sub(4);",
      "            Scenario::Hook(_, Hook::Passed) => {\n                self.emit_log(\"hook passed\")?;\n                self.indent = self.indent.saturating_sub(4);"),
+    ("c14_json_undo_pathless_feature_fix", "C14/R10", "src/writer/json.rs",
+     "        self.uri.as_deref()\n            == other.path.as_ref().and_then(|p| p.to_str().map(trim_path))\n            && self.name == other.name",
+     "        self.uri\n            .as_ref()\n            .and_then(|uri| {\n                other\n                    .path\n                    .as_ref()\n                    .and_then(|p| p.to_str().map(trim_path))\n                    .map(|path| uri == path)\n            })\n            .unwrap_or_default()\n            && self.name == other.name"),
+    ("c14_json_feature_found_by_name_only_if_uri", "C14/R10", "src/writer/json.rs",
+     "        self.uri.as_deref()\n            == other.path.as_ref().and_then(|p| p.to_str().map(trim_path))\n            && self.name == other.name",
+     "        self.uri.is_some()\n            && self.uri.as_deref()\n                == other.path.as_ref().and_then(|p| p.to_str().map(trim_path))\n            && self.name == other.name"),
     # ---- C02
     ("c02_after_events_before_failed", "C02/R5", B,
      "            if let Some(exec_error) = result.err() {\n                self.emit_failed_events(\n                    feature.clone(),\n                    rule.clone(),\n                    scenario.clone(),\n                    world.clone(),\n                    exec_error,\n                    retry_num,\n                );\n            }\n\n            self.emit_after_hook_events(\n                feature.clone(),\n                rule.clone(),\n                scenario.clone(),\n                world,\n                after_hook_meta,\n                after_hook_error,\n                retry_num,\n            );",
